@@ -238,6 +238,9 @@ Definition num_gt_label (L : nat) (gts' : list Obj) : nat := AP.count_label L (m
 Definition weights_in_unit (T : Tables) : Prop :=
   forall row x, In row (t_heading T) -> In x row -> 0 <= x <= 1.
 
+Definition weights_in_unitb (T : Tables) : bool :=
+  forallb (forallb (fun x => Qleb 0 x && Qleb x 1)) (t_heading T).
+
 (* [pf'] is [pf] with every pass/fail threshold loosened (plane distance: larger) *)
 Definition pf_looser (pf pf' : PF) : Prop :=
   pf_targets pf' = pf_targets pf /\
